@@ -221,6 +221,11 @@ pub fn aux_values(sam_only_valid: bool, wide: bool) -> Vec<Option<GVal>> {
         U32(0),
         U32(u32::MAX),
         U32(1 << 31),
+        // just beyond the range of the next narrower type (where a text reader picks the width)
+        I32(-129),
+        I32(-32769),
+        U16(256),
+        U32(65536),
         GVal::f(0.0),
         GVal::f(-0.0),
         GVal::f(1.0),
@@ -263,10 +268,8 @@ pub fn aux_values(sam_only_valid: bool, wide: bool) -> Vec<Option<GVal>> {
             I8(0),
             I16(0),
             I16(-1),
-            U16(256),
-            I32(-129),
             I32(32768),
-            U32(65536),
+            I32(128),
             GVal::f(1e-45),
             GVal::f(-f32::MAX),
             GVal::f(16777216.0),
